@@ -84,14 +84,16 @@ inline ld tol_series(const Ell& E) { return 2 * series_doc_m(E.f, E.a); }
 inline ld tol_exact(const Ell& E) { return 2 * exact_doc_m(E.f, E.Q); }
 
 // S12: PolygonArea.hpp documents 0.1 m^2 per vertex (WGS84); Appendix B: 0.2 m^2 per edge, scaled by (a/6378137)^2 and by the
-// ratio of the documented position error to the WGS84 figure (series: 15 nm; exact: 40 nm) where that ratio exceeds 1
+// ratio of the documented position error to the WGS84 figure (series: 15 nm; exact: 40 nm) where that ratio exceeds 1.
+// The area scale is taken as the authalic radius squared c2 (= a^2 for a sphere; a^2 alone is meaningless for b/a = 16).
+inline ld area_scale(const Ell& E) { geod_ode::Ellipsoid<ld> w(wgs84_a(), wgs84_f()); return E.e.c2() / w.c2(); }
 inline ld tol_area_series(const Ell& E) {
   ld r = series_doc_m(E.f, E.a) / (15e-9L * (ld)E.a / (ld)wgs84_a());
-  return 0.2L * ((ld)E.a / (ld)wgs84_a()) * ((ld)E.a / (ld)wgs84_a()) * (r > 1 ? r : 1);
+  return 0.2L * area_scale(E) * (r > 1 ? r : 1);
 }
 inline ld tol_area_exact(const Ell& E) {
   ld r = exact_doc_m(E.f, E.Q) / (40e-9L * E.Q / 1e7L);
-  return 0.2L * ((ld)E.a / (ld)wgs84_a()) * ((ld)E.a / (ld)wgs84_a()) * (r > 1 ? r : 1);
+  return 0.2L * area_scale(E) * (r > 1 ? r : 1);
 }
 
 }  // namespace geodtab
